@@ -36,7 +36,8 @@ CLAIMED = {
         "Integers; conversion on assignment fails only with OVERFLOW / TYPE MISMATCH / STRING TOO LONG and otherwise has the target type; "
         "compiled expression code computes what the reference semantics prescribes; the expression parser builds the tree the table prescribes: for "
         "every tree over identifiers, literals, array elements / function calls, unary minus, NOT and the binary operators, at every depth, parsing the tokens of its minimally "
-        "parenthesised rendering returns the tree (columns aside) and stops in front of what follows (Props/C02.v, Proofs/ParseExpr.v, C01).",
+        "parenthesised rendering -- with blank tokens anywhere among them -- returns the tree (columns aside) and stops in front of what follows; two token lists "
+        "with the same visible tokens give the same tree (Props/C02.v, Proofs/ParseExpr.v, C01).",
         "random and exhaustive (all operator pairs) expression trees rendered with the parentheses the manual's table requires must parse back "
         "to the tree; every operator x operand-type x boundary-value combination model vs crate and against the documented result type; "
         "typed assignment and literal typing against the manual's rules.",
